@@ -15,6 +15,7 @@ type Blob struct {
 	str  StrVal
 	raw  string // concrete rendering when known (e.g. JSON of an int)
 	cell *Obj   // "sig": the mutable recovery byte (index 64) of this copy of the signature
+	r64  bool   // "sig": only R || S (the first 64 bytes) of the signature
 }
 
 func (m *Machine) blobSlice(b *Blob) Value {
@@ -30,6 +31,9 @@ func (m *Machine) blobLen(b *Blob) *Term {
 		return m.strLen(b.str)
 	}
 	if b.kind == "sig" {
+		if b.r64 {
+			return mkInt(64)
+		}
 		return mkInt(65)
 	}
 	return mkInt(int64(len(describe(b.v)) + 2)) // positive, content-independent decisions only
@@ -69,7 +73,13 @@ func (m *Machine) blobSliceOp(s SliceVal, b *Blob, lo, hi *Term) Value {
 		return s
 	}
 	if b.kind == "sig" {
-		return s // R||S||V: the 64-byte prefix identifies the same signature in the model
+		// R||S||V: the 64-byte prefix identifies the same signature in the model
+		if h, ok := hi.constInt(); hi != nil && ok && h == 64 && !b.r64 {
+			nb := *b
+			nb.r64, nb.cell = true, nil
+			return m.blobSlice(&nb)
+		}
+		return s
 	}
 	panic(abortf("slicing an opaque %s blob", b.kind))
 }
